@@ -53,6 +53,8 @@ type Cfg struct {
 	PreHost  func(h *extension.Host) `json:"-"`
 	PostHost func(h *extension.Host) `json:"-"`
 	NoHTTP   bool                    `json:"-"`
+	// Domain is the name the servers greet with (default inbucket.test); never part of a case.
+	Domain string `json:"-"`
 }
 
 // DefaultCfg accepts and stores everything, local naming, mem store.
@@ -126,8 +128,12 @@ func ProcessCfg(c Cfg) (*config.Root, error) {
 	}
 	set("SMTP_TIMEOUT", "60s")
 	set("POP3_TIMEOUT", "60s")
-	set("SMTP_DOMAIN", "inbucket.test")
-	set("POP3_DOMAIN", "inbucket.test")
+	dom := c.Domain
+	if dom == "" {
+		dom = "inbucket.test"
+	}
+	set("SMTP_DOMAIN", dom)
+	set("POP3_DOMAIN", dom)
 	set("SMTP_ADDR", "127.0.0.1:0")
 	set("POP3_ADDR", "127.0.0.1:0")
 	set("WEB_MONITORHISTORY", fmt.Sprint(c.MonitorHistory))
